@@ -10,7 +10,8 @@ import ast
 import re
 from typing import Dict, List, Optional, Set, Tuple
 
-from ..model import AnalysisError, Func, RepoModel, call_name, const_str, dotted, is_self_attr, literal, norm, walk_no_nested
+from ..cfg import cfg_of
+from ..model import AnalysisError, Func, RepoModel, call_name, const_str, dotted, enclosing_map, is_self_attr, literal, norm, walk_no_nested
 
 try:  # the regex parser moved in 3.11
     import re._parser as sre_parse
@@ -276,6 +277,92 @@ def run(model: RepoModel, rep, tier: str):
     # on the spelling of the names beyond their agreed (sorted) order at both ends (shared with C07.R4)
     from .c07 import _r4_keyword_order
     _r4_keyword_order(model, rep, "C12.R5")
+    _r6_names_and_module_tree(model, rep)
+
+
+def _r6_names_and_module_tree(model: RepoModel, rep):
+    rep.rule("C12.R6", "fresh names and new files behave like the old ones: a name is classified as a variable by its shape alone (the only words "
+                       "refused are reserved words, which no program can use as a name), and the module tree mirrors the directory tree (the "
+                       "entries of a directory are registered under the id created for that directory), so an import into a package resolves", 2)
+    # (a) is_variable
+    um = model.module("util/util.py")
+    iv = um.functions.get("is_variable")
+    if iv is None:
+        raise AnalysisError("util.is_variable vanished")
+    key = "util/util.py::is_variable::only reserved words are refused"
+    # word lists that contain legal identifiers: soft keywords (match, case, type, _), builtins, any literal collection of words that
+    # leads to a refusal
+    LEGAL_WORD_SOURCES = ("keyword.issoftkeyword", "keyword.softkwlist", "dir", "builtins")
+    icfg = cfg_of(iv.node)
+    bad = None
+    for n in icfg.g.nodes:
+        st = icfg.stmt.get(n)
+        if icfg.kind[n] == "stmt" and isinstance(st, ast.Return) and isinstance(st.value, ast.Constant) and st.value.value is False:
+            for atom, truth in icfg.conditions_at(n):
+                if not truth:
+                    continue
+                for x in ast.walk(atom):
+                    if isinstance(x, ast.Call) and (call_name(x) or "") in LEGAL_WORD_SOURCES:
+                        bad = bad or (atom, f"`{call_name(x)}`")
+                    if isinstance(x, ast.Attribute) and (dotted(x) or "") in LEGAL_WORD_SOURCES:
+                        bad = bad or (atom, f"`{dotted(x)}`")
+                # `name in [<words>]` that leads to a refusal
+                if isinstance(atom, ast.Compare) and isinstance(atom.ops[0], ast.In) and isinstance(atom.comparators[0], (ast.List, ast.Tuple, ast.Set)) \
+                        and any(isinstance(e, ast.Constant) and isinstance(e.value, str) and e.value.isidentifier() and not __import__("keyword").iskeyword(e.value)
+                                for e in atom.comparators[0].elts):
+                    bad = bad or (atom, "a list of words that are legal identifiers")
+    if bad:
+        rep.violation("C12.R6", key, "util/util.py", bad[0].lineno,
+                      f"is_variable refuses a name under `{norm(bad[0])[:100]}`, i.e. by {bad[1]}: those words are legal identifiers (a local may be "
+                      f"called match, type, case, list ...), so renaming a variable to one of them turns every use of it into a constant and the "
+                      f"flows through it disappear")
+    else:
+        rep.holds("C12.R6", key, "util/util.py", iv.node.lineno, "the refusing conditions only consult keyword.iskeyword and the shape of the name")
+    # (b) module tree
+    pm = model.module("preparation.py")
+    scan = None
+    for c in pm.classes.values():
+        for f in c.methods.values():
+            if any(isinstance(x, ast.Call) and is_self_attr(x.func, f.name) for x in walk_no_nested(f.node)) and any(
+                    isinstance(x, ast.Call) and (call_name(x) or "") == "os.scandir" for x in walk_no_nested(f.node)):
+                scan = f
+    if scan is None:
+        raise AnalysisError("the recursive directory scan of preparation.py (self-recursive method calling os.scandir) vanished")
+    key = f"preparation.py::{scan.qualname}::a directory's entries are registered under the directory's own id"
+    recs = [d for d in walk_no_nested(scan.node) if isinstance(d, ast.Dict) and any(isinstance(k, ast.Constant) and isinstance(k.value, str) and "parent" in k.value for k in d.keys)]
+    parent_params = {norm(v) for d in recs for k, v in zip(d.keys, d.values) if isinstance(k, ast.Constant) and "parent" in str(k.value) and isinstance(v, ast.Name) and v.id in scan.params}
+    if len(parent_params) != 1:
+        rep.unknown("C12.R6", key, "preparation.py", scan.node.lineno, f"parent-id parameter not identified ({sorted(parent_params)})")
+        return
+    P = parent_params.pop()
+    ppos = scan.params.index(P) - 1
+    probs = []
+    n_calls = 0
+    enc = enclosing_map(scan.node)
+    for c in walk_no_nested(scan.node):
+        if not (isinstance(c, ast.Call) and is_self_attr(c.func, scan.name)):
+            continue
+        n_calls += 1
+        a = c.args[ppos] if ppos < len(c.args) else next((k.value for k in c.keywords if k.arg == P), None)
+        # the record appended in the same block gives the id created for this directory
+        blk = enc.get(id(c))
+        while blk is not None and not isinstance(blk, (ast.If, ast.For, ast.While)):
+            blk = enc.get(id(blk))
+        own_ids = {norm(v) for d in recs if blk is not None and any(x is d for x in ast.walk(blk)) for k, v in zip(d.keys, d.values)
+                   if isinstance(k, ast.Constant) and isinstance(k.value, str) and k.value.endswith("_id") and "parent" not in k.value}
+        if a is None:
+            probs.append((c.lineno, f"`{norm(c)[:80]}` leaves `{P}` to its default: the sub-directory's entries hang under the root"))
+        elif norm(a) == P:
+            probs.append((c.lineno, f"`{norm(c)[:80]}` hands its own `{P}` down: the entries of the sub-directory become siblings of the directory "
+                                    f"instead of its children, so `from pkg.mod import f` finds no `mod` below `pkg`"))
+        elif own_ids and norm(a) not in own_ids:
+            probs.append((c.lineno, f"`{norm(c)[:80]}` passes `{norm(a)}` as `{P}`, not the id recorded for the directory ({sorted(own_ids)})"))
+    if not n_calls:
+        raise AnalysisError("recursive call of the directory scan not found")
+    if probs:
+        rep.violation("C12.R6", key, "preparation.py", probs[0][0], f"{scan.qualname}: " + "; ".join(p for _, p in probs))
+    else:
+        rep.holds("C12.R6", key, "preparation.py", scan.node.lineno, f"{n_calls} recursive call(s) pass the id recorded for the directory as `{P}`")
 
 
 # ---------------------------------------------------------------- self-test mutants
